@@ -51,11 +51,14 @@ func (c *ExecuteCtx) SetFieldResult(name string, value any) {
 	c.FieldCaches[name] = value
 }
 
+// The results of a field on a chunk are kept under the field name and the first
+// key of the chunk. The name length is part of the cache key: a quoted field
+// name may contain any character, '-' included, so name-key alone is ambiguous
 func (c *ExecuteCtx) GetChunkFieldResult(name string, key []byte) ([]any, bool) {
 	if !c.EnableCache {
 		return nil, false
 	}
-	ckey := fmt.Sprintf("%s-%s", name, string(key))
+	ckey := fmt.Sprintf("%d:%s-%s", len(name), name, string(key))
 	if chunk, have := c.FieldChunkKeyCaches[ckey]; have {
 		return chunk, true
 	}
@@ -81,7 +84,7 @@ func (c *ExecuteCtx) SetChunkFieldResult(name string, key []byte, chunk []any) {
 	if !c.EnableCache {
 		return
 	}
-	ckey := fmt.Sprintf("%s-%s", name, string(key))
+	ckey := fmt.Sprintf("%d:%s-%s", len(name), name, string(key))
 	if _, have := c.FieldChunkKeyCaches[ckey]; have {
 		return
 	}
